@@ -167,7 +167,12 @@ func NoD3(b []byte) []byte {
 // Junk makes a 0xD3-free run of other data: NMEA-like text, UBX-like binary, or random.
 func Junk(r *ref.SplitMix64) Seg {
 	var b []byte
-	switch r.Intn(6) {
+	switch r.Intn(7) {
+	case 6:
+		// crumbs of the protocols RTCM travels in: HTTP chunk sizes and chunk ends, a
+		// caster's greeting, a modem's answer, an empty line, a hex word
+		crumbs := []string{"1f4\r\n", "\r\n0\r\n\r\n", "\r\n00c0ffee\r\n", "0\r\n", "\r\n", "OK\r\n", "ICY 200 OK\r\n\r\n", "\r\n3e8\r\n", "ff", "CONNECT 9600\r\n", "\n", "A5\r\n\r\n", "ENDSOURCETABLE\r\n"}
+		b = []byte(crumbs[r.Intn(len(crumbs))])
 	case 0:
 		body := fmt.Sprintf("GPGGA,%06d.00,5130.%04d,N,00007.%04d,W,1,%02d,0.9,%d.1,M,47.0,M,,", r.Intn(240000), r.Intn(10000), r.Intn(10000), r.Intn(13), r.Intn(500))
 		cs := byte(0)
